@@ -101,12 +101,59 @@ theorem sigint_stops (s : St) (hr : Reach s) (hup : s.phase = .up) (hi : s.gathe
     ∃ es s' r, (es.all Ev.closingEv = true) ∧ run s es = some s' ∧ s'.phase = .ended r ∧ es.length ≤ 8 :=
   closing_terminates s hr hup (Or.inr (by simp [hi])) hq
 
+/-! ### "keeps all of them alive": references and garbage collection
+
+A service unit refers to its instance weakly until the instance's `run` has been adopted; what
+keeps the configured objects alive meanwhile is the frame of the loader payload, which stays
+inside `with load(config_path)` for as long as the daemon is up. -/
+
+/-- an instance that a running payload refers to cannot be collected -/
+theorem held_not_collected (s : St) (p : Nat) (hh : s.held p = true) : step s (.dropUnit p) = none := by
+  simp [step, hh]
+
+/-- a collected service is never started (so losing the reference would leave the daemon idle) -/
+theorem collected_never_started (s s' : St) (hr : Reach s) (p : Nat) (h : step s (.dropUnit p) = some s') :
+    s'.pay p = .discarded ∧ s'.starts p = 0 := by
+  simp only [step] at h
+  split at h
+  · rename_i hg
+    simp only [Option.some.injEq] at h; subst h
+    refine ⟨by simp [upd], ?_⟩
+    rcases (inv_reach s hr).c.starts_once p with ⟨h0, _⟩ | ⟨_, h1⟩
+    · exact h0
+    · rw [hg.1] at h1; simp [PSt.notStarted] at h1
+  · simp at h
+
+/-- **the loader keeps the services alive**: as long as the payload that refers to a service keeps
+running - its body does not end and it is not cancelled - every event leaves the service referenced;
+it can be swept (`C03.sweep_enabled`) but not collected -/
+theorem held_stable (s s' : St) (e : Ev) (p h : Nat) (hh : s.holder p = some h) (hrun : s.pay h = .running)
+    (hs : step s e = some s') (h1 : ∀ o, e ≠ .bodyEnd h o) (h2 : e ≠ .unwound h) : s'.held p = true := by
+  have key : ∀ t : St, (∃ h', t.holder p = some h' ∧ t.pay h' = .running) → t.held p = true := by
+    intro t ⟨h', a, b⟩; simp [St.held, a, b]
+  apply key
+  cases e <;> simp only [step] at hs
+  all_goals (repeat' (split at hs))
+  all_goals (first | (simp at hs; done) | skip)
+  all_goals (try (simp only [Option.some.injEq] at hs; subst hs))
+  all_goals (first
+    | exact ⟨h, hh, hrun⟩
+    | (refine ⟨h, by simpa using hh, ?_⟩; simp only [upd_apply, setFlavTid_pay]; grind)
+    | grind [upd, St.setFlavTid])
+
 /-! ### non-vacuity: a configuration error makes the daemon exit with status 1 -/
 
 def badConfig : List Ev :=
   daemonStart ++ [.launch, .flush, .start loader 0, .bodyEnd loader .exc, .record loader, .rtaskEnd .aio,
     .gatherRaise .aio, .close .trio, .close .thr, .rtaskEnd .trio, .rtaskEnd .thr, .endRun (.raisedRT loader)]
 example : ((run St.init badConfig).map (fun s => s.phase)) = some (.ended (.raisedRT loader)) := by decide +kernel
+-- a service constructed by the running loader is held, cannot be collected, and can be swept
+def keepAlive : List Ev := daemonStart ++ [.launch, .flush, .start loader 0, .newUnit 1 .trio, .hold 1 loader]
+example : ((run St.init keepAlive).map (fun s => (s.held 1, (step s (.dropUnit 1)).isNone, (step s (.sweep 1)).isSome))) =
+    some (true, true, true) := by decide +kernel
+-- without the reference the very same service can be collected before it is adopted
+example : ((run St.init (keepAlive.dropLast)).map (fun s => (s.held 1, (step s (.dropUnit 1)).isSome))) =
+    some (false, true) := by decide +kernel
 example : dispatch ".yml" = .yaml ∧ dispatch ".py" = .python ∧ dispatch ".json" = .unknown ∧ dispatch "" = .unknown := by
   decide
 
